@@ -81,7 +81,7 @@ func init() {
 		ID: "C10",
 		Explanation: "decides writer/reader agreement of the snapshot state: every field of every state struct is written on the restore path and read on the capture path (or is in the table of fields rebuilt from captured state), the marshalled and unmarshalled DTOs have the same keys, exported and unique, GetMeta/SetMeta agree field by field, the list index is keyed by the order time also after a restore, and the export/import pair is used by rollback and by the server rebuild. NOT decided: that the rebuilt indexes equal the originals, i.e. indistinguishability itself.",
 		Assumptions: []string{"encoding/json reads/writes exactly the exported, non-\"-\" fields of a struct it is handed"},
-		Rules:       []ruleFn{ruleR10_1, ruleR10_2, ruleR10_3, ruleR10_4, ruleR04_6},
+		Rules:       []ruleFn{ruleR10_1, ruleR10_2, ruleR10_3, ruleR10_4, ruleR10_5, ruleR04_6},
 	})
 }
 
